@@ -247,7 +247,9 @@ def main(argv=None):
         if not violations:
             return 3
     if vacuity['covers_other']:
-        bad = [c for c in vacuity['covers_other'] if c.endswith('=unsat')]
+        # a contradictory `requires` or an unreachable normal exit / loop body makes a contract vacuous; an unreachable
+        # *exceptional* exit only means that the exception cannot happen
+        bad = [c for c in vacuity['covers_other'] if c.endswith('=unsat') and ':exit.raise.' not in c]
         if bad:
             print('ENGINE-ERROR vacuous contract: %s' % bad)
             return 3
